@@ -224,6 +224,8 @@ pub(super) fn start_cleanup_thread(
     Ok(CleanupThreadHandle {
         sender,
         join_handle: builder.spawn(move || {
+            #[cfg(flexi_logger_verif)]
+            crate::verif_hooks::point("sc:cleanup_wait", None).ok();
             while let Ok(MessageToCleanupThread::Act) = receiver.recv() {
                 #[cfg(flexi_logger_verif)]
                 crate::verif_hooks::point("sc:cleanup_act", None).ok();
@@ -234,6 +236,8 @@ pub(super) fn start_cleanup_thread(
                     writes_direct,
                 )
                 .ok();
+                #[cfg(flexi_logger_verif)]
+                crate::verif_hooks::point("sc:cleanup_wait", None).ok();
             }
         })?,
     })
